@@ -36,6 +36,7 @@ struct DimFixture {
 #include "c05.hpp"
 #include "c06.hpp"
 #include "c17.hpp"
+#include "c18.hpp"
 
 int main(int argc, char **argv) {
     if (argc < 3) {
@@ -48,6 +49,7 @@ int main(int argc, char **argv) {
     if (prop == "c07") rc = drive("C07", opt, c07::body);
     if (prop == "c06") rc = drive("C06", opt, c06::body);
     if (prop == "c17") rc = drive("C17", opt, c17::body);
+    if (prop == "c18") rc = drive("C18", opt, c18::body);
     if (prop == "c05") rc = drive("C05", opt, c05::body);
     if (opt.own_work) rm_rf(opt.work);
     return rc;
